@@ -51,6 +51,12 @@ Theorem C08_function_of_bytes : forall b s,
 Proof. exact (read_all_lines_faultless decode_utf8_lossy_spec). Qed.
 Print Assumptions C08_function_of_bytes.
 
+(* BufReader::with_capacity(c, _) with c >= 3 (n source calls scheduled, any n) *)
+Theorem C08_bufreader_capacity_ge3 : forall b c n, (3 <= Pos.to_nat c)%nat ->
+  read_all_lines (mk_reader b (repeat (Chunk c) n)) = decode_stream b.
+Proof. exact bufreader_capacity_ge3. Qed.
+Print Assumptions C08_bufreader_capacity_ge3.
+
 (* Interrupted results never matter, for any schedule (also inside the D4
    class and with hard failures) *)
 Theorem C08_interrupted_transparent : forall b s,
